@@ -116,6 +116,22 @@ out += ["", "Changes that were missed at first and what was strengthened:", "",
         "  active). The exact combination stayed too rare for random scripts in a quick run (thorough: `crash:SEGV:vorbis_bitrate_addblock`), so a deterministic pairwise stratum was added: one field of a RATEMANAGE2_SET argument at one of ten",
         "  boundary values x one follow-up request of the deprecated interface (none / AVG / HARD / SET) x both three-step set-up calls, 560 combinations enumerated by case id (each visited twice per quick run) and followed by",
         "  `setup_init` and a second of audio; with it the quick tier reports `C15_r7m2` too.",
+        "* Round 8 (two batches of one change per property; prompts vary the kind of trigger asked for: cooperating sites / multi-step sequence / unusual legal input / fault at a particular point / boundary configuration; three exact",
+        "  repeats of first-batch changes - C01, C06, C12 - not stored): 32 of 37 reported as the checks stood. Five were missed and led to stronger checks, all five now reported by the quick tier of their own property:",
+        "  `C12_r8m1` (`_seek_helper` drops the read-ahead buffer before a seek that then fails: only a recovery seek to exactly the raw offset the handle reports is answered without moving the source and decodes what lies further on) -",
+        "  C12's recovery probe always began with `ov_pcm_seek`; its first call is now drawn from all seek flavours (`ov_raw_seek(ov_raw_tell())`, raw seek to a random offset, `ov_pcm_seek_page`, `ov_time_seek`, `ov_time_seek_page`, or",
+        "  `ov_pcm_seek`), made on the recovered handle and on a twin that never saw a fault: return code, `ov_pcm_tell` and `ov_raw_tell` must agree, and the audio after it is judged against the linear reference (~21 000 such calls per quick run).",
+        "  `C08_r8m1` (`_seek_helper` claims the new offset before the source has moved: after one refused seek callback a retry of the same request finds the handle 'already there') - the C07/C08 histories never had a call fail for a",
+        "  reason outside the arguments; they now contain seek calls during which the source balks once (judged for the return domain only), each followed by the same request again, which is judged like any other call (~3 300 per quick run).",
+        "  `C03_r8m1` (`ov_raw_seek`'s early error exit clears a scratch stream it has not initialised yet; needs a refused seek callback and a dirty stack) - C12 reported it at once, C03 did not because its call scripts ran on a source that",
+        "  never failed. 5 % of C03's script calls now run with a one-shot callback fault armed 0-2 invocations ahead (~3 000 fire per quick run); the stack is dirtied before every call as before. The same arming in C13's scripts counted",
+        "  every kind on the read counter, so its seek and tell faults hardly ever fired: corrected.",
+        "  `C02_r8m1` (the correction loop of `_book_maptype1_quantvals` never ends for 31 (dim, entries) pairs such as dim 3, entries k^3-1, k = 132..161) - forced `entries` values were powers of two and field extremes. New mode c02q: the",
+        "  library's routine is asked for every (dim, k^dim-2..k^dim+2) below 2^24 (dims 2..24 exhaustively, dim 1 and dims up to 65535 sampled; ~138 000 pairs per quick run) and compared with the model's integer answer, and ~500 such books",
+        "  are packed into real setup headers and run through `headerin` / `synthesis_init` / clear under a 20 s CPU budget per case.",
+        "  `C13_r8m2` (`_fetch_headers` returns without clearing `vi`/`vc` when a read error hits the fetch of a link's THIRD header page during the open-time scan of a later link) - every stream the harness built had two header pages per",
+        "  link, so that loop was never entered. The muxer now knows three header layouts (comment+setup on one page / one header packet per page / comment+setup over many small continued pages), C12 cycles through them, and C13 runs C12's",
+        "  fault plans (a fault at every callback invocation index of an open or seek scenario) under LeakSanitizer with only the ledger gating.",
         "  `C03_r5m2` (round 5, thorough-only until now) is reported by the quick tier since C03 got a phantom-tail stratum (a link whose last page overstates its length, followed by a link that opens but cannot be decoded) and seek targets",
         "  at and around every link boundary.",
         "<!-- AUTOGEN-END -->"]
